@@ -157,6 +157,7 @@ fn product_point<N: Fld>(p: &ProdPt) -> Outcome {
     o.executions = 2;
     match r {
         Err(m) => o.viol("polynomial::Mul", "no-panic", format!("{}: {}", ctx(), m)),
+        Ok((ab, ba)) if ab.is_empty() || ba.is_empty() => o.viol("polynomial::Mul", "result-is-a-well-formed-polynomial", format!("{}: a product has no coefficients", ctx())),
         Ok((ab, ba)) => {
             let bound = noise + if pth == "fft" { tol } else { 0.0 };
             let d = dev(&ab, &exact);
@@ -276,6 +277,10 @@ fn op_point<N: Fld>(p: &OpPt) -> Outcome {
             Err(m) => o.viol(subject, "no-panic", format!("{}: {}", ctx(form), m)),
             Ok(g) => {
                 let g = asc(&g);
+                if g.is_empty() {
+                    o.viol(subject, "result-is-a-well-formed-polynomial", format!("{}: the result has no coefficients (order() and evaluate() panic on it)", ctx(form)));
+                    return;
+                }
                 let d = dev(&g, want);
                 let scale = want.iter().map(|c| c.norm()).fold(0.0, f64::max);
                 if !(d <= tol_abs + 2.0 * EPS * scale) {
